@@ -1,6 +1,9 @@
 (* name -> extracted function table; extend when a model is added to Extract.v *)
 open Modelgen
-let table : (string * (z list -> z list)) list = [
+let table : (Stdlib.String.t * (z list -> z list)) list = [   (* Stdlib.: the extracted code may define its own type `string` *)
   ("coll", run_coll);
   ("kernel", run_kernel);
+  ("commands", run_commands);
+  ("savefs", run_savefs);
+  ("dataconv", run_dataconv);
 ]
